@@ -28,7 +28,67 @@ def resp_field(term, variant, idx):
     return isinstance(t, tuple) and t[0] == "field" and t[2] == str(idx) and isinstance(t[1], tuple) and t[1][0] == "variant" and t[1][2] == variant
 
 
+def ob_request_identifier(run, oid):
+    """RepairRequestType::hash keys `outstanding_requests`: a response is accepted iff the hash of the request it names is outstanding"""
+    prog = run.program("lib")
+    o = run.ob(oid, "the request identifier is the hash of the serialisation of the WHOLE request (kind tag and every field), not of selected fields",
+               "an identifier that leaves out the kind makes LastSliceRoot(b), SliceRoot(b, 0) and Shred(b, 0, 0) the same request: a response of another kind passes the "
+               "outstanding-request test and reaches code that relies on the request having been of that kind (unreachable!())", floor=2)
+    b = prog.body(A + "repair::RepairRequestType::hash")
+    if b is None:
+        o.missing("RepairRequestType::hash")
+        return
+    # no per-variant field selection: the body does not inspect self's discriminant / payload
+    inspects = [bl["id"] for bl in b.blocks if bl["id"] in b.reach() and bl["term"]["k"] == "switch" and K.mentions(b.operand_term(bl["term"]["d"]), lambda x: x[0] == "param" and x[1] == 1)]
+    reads = [(ow, n) for (_bb, ow, n, _sp) in b.field_reads() if ow.startswith(A + "repair::RepairRequestType")]
+    o.check(not inspects and not reads, "RepairRequestType::hash|whole-value", "the digest is not assembled from selected fields of the request", b.span, {"field_reads": sorted(set(reads))[:4]})
+    # the digest input is a schema serialisation of a value built from the whole of self
+    ret = [b.rvalue_term(st["rv"]) for bl in b.blocks for st in bl["stmts"] if st["k"] == "assign" and st["dst"]["l"] == 0 and not st["dst"]["p"]]
+    ret += [b.call_term(bl["id"], bl["term"]) for bl in b.blocks if bl["term"]["k"] == "call" and bl["term"]["dst"]["l"] == 0 and not bl["term"]["dst"]["p"] and bl["id"] in b.reach()]
+    ok = False
+    for t in ret:
+        pv = b.provenance(t, depth=10)
+        ser = any(x.endswith("::serialize") or "wincode::serialize" in x or x.endswith("serialize_into") for x in pv["calls"])
+        hashed = any(x.rsplit("::", 1)[-1] in ("hash", "hash_all") for x in pv["calls"])
+        if ser and hashed and "self" in pv["params"]:
+            ok = True
+    o.check(ok, "RepairRequestType::hash|serialised", "digest = hash(serialize(value containing the whole request))", b.span)
+
+
+def ob_repair_store_unconditional(run, oid):
+    prog = run.program("lib")
+    o = run.ob(oid, "a repaired shred is handed to the block it was requested for whatever happened in dissemination: no condition (leader flagged, slot state, ..) stands between "
+                    "Blockstore::add_shred_from_repair and BlockData::add_shred of repaired[hash]",
+               "repair exists for exactly the slots in which dissemination went wrong (equivocating leader): refusing repaired shreds there means the notarized block is never obtained, "
+               "although every peer answers correctly", floor=3)
+    SBD = A + "consensus::blockstore::slot_block_data::SlotBlockData"
+    BD = A + "consensus::blockstore::slot_block_data::BlockData"
+    b = prog.body(SBD + "::add_shred_from_repair")
+    if b is None:
+        o.missing("SlotBlockData::add_shred_from_repair")
+    else:
+        cs = b.calls_to(BD + "::add_shred")
+        o.check(len(cs) == 1 and b.always_followed_by(0, [c.bb for c in cs]), "SlotBlockData::add_shred_from_repair|always-stores", "every call ends in BlockData::add_shred", b.span)
+        for c in cs:
+            extra = D.extra_guards(prog, b, c.bb, [])
+            o.check(not extra, "SlotBlockData::add_shred_from_repair|no-condition", "no condition guards the hand-over", c.span, {"extra": G.atoms_show(extra)})
+            recv = b.provenance(b.operand_term(c.args[0]))
+            o.check((SBD, "repaired") in recv["fields"] and (SBD, "disseminated") not in recv["fields"], "SlotBlockData::add_shred_from_repair|into-repaired", "the receiving block is repaired[hash]", c.span)
+    for x in prog.family("<" + A + "consensus::blockstore::BlockstoreImpl as " + A + "consensus::blockstore::Blockstore>::add_shred_from_repair"):
+        if not x.is_closure:
+            continue
+        cs = x.calls_to(SBD + "::add_shred_from_repair")
+        o.check(len(cs) == 1, "Blockstore::add_shred_from_repair|delegates", "delegates to SlotBlockData::add_shred_from_repair", x.span)
+        for c in cs:
+            extra = D.extra_guards(prog, x, c.bb, [])
+            o.check(not extra, "Blockstore::add_shred_from_repair|no-condition", "no condition guards the delegation", c.span, {"extra": G.atoms_show(extra)})
+
+
 def check(run):
+    ob_request_identifier(run, "O14.12")
+    ob_repair_store_unconditional(run, "O14.13")
+    from . import detectors as _DL
+    _DL.ob_loop_exits(run, "O14.11", ['repair::', 'consensus::blockstore'], 'every missing slice / shred has to be requested: a loop that stops early never repairs the rest')
     ob_block_lookup(run, "O14.10")
     # the requester accepts a slice count only through check_proof_last / check_proof: their index-domain and last-leaf obligations
     from . import C15
